@@ -36,6 +36,7 @@ def universes(tier):
     if tier == "thorough":
         corpus = [r for r in pf.corpus_reactions("reaction") if pf.in_domain(r)]
         us.append(("validation corpus", corpus, {}, 25))
+    us += pf.ids_universes()
     return us
 
 
